@@ -42,5 +42,5 @@ run_one() {
   git -C /repo worktree remove --force $wt >/dev/null 2>&1
 }
 export -f run_one; export root
-printf '%s\n' "${jobs[@]}" | grep -- "$filt" | xargs -P 6 -I{} bash -c 'run_one {} > $root/res-$(echo {} | tr ":" "_") 2>&1'
+printf '%s\n' "${jobs[@]}" | grep -- "$filt" | xargs -P ${REGRESS_JOBS:-6} -I{} bash -c 'run_one {} > $root/res-$(echo {} | tr ":" "_") 2>&1'
 cat $root/res-* 
